@@ -509,9 +509,14 @@ def _shared_mutation(model, fi, tainted: Dict[str, str], depth: int, seen: set):
                     if isinstance(x, ast.Name):
                         binds.setdefault(x.id, []).append((pos(n), None, "unpack"))
         elif isinstance(n, (ast.For, ast.comprehension)):
+            top = list(n.target.elts) if isinstance(n.target, (ast.Tuple, ast.List)) else []
             for x in ast.walk(n.target):
                 if isinstance(x, ast.Name):
-                    binds.setdefault(x.id, []).append((pos(n) if isinstance(n, ast.For) else pos(n.iter), n.iter, "iter"))
+                    binds.setdefault(x.id, []).append((pos(n) if isinstance(n, ast.For) else pos(n.iter), n.iter, "iter" if x not in top else f"iter{top.index(x)}"))
+
+    # local containers whose KEYS or VALUES are shared objects (filled by subscript stores / append / add); the container
+    # itself is the task's own, only the objects taken out of it again are shared
+    content: Dict[str, Dict[str, str]] = {}
 
     def src(e: ast.AST, at=None, _d=0) -> Optional[str]:
         if isinstance(e, ast.Name):
@@ -521,9 +526,30 @@ def _shared_mutation(model, fi, tainted: Dict[str, str], depth: int, seen: set):
                 p_, val, kind = bs[-1]
                 if kind == "unpack":
                     return tainted.get(e.id)
-                return src(val, p_, _d + 1) if val is not None else None
+                r0 = src(val, p_, _d + 1) if val is not None else None
+                if r0 is None and kind.startswith("iter") and val is not None:
+                    # for k, v in c.items() / for k in c / for v in c.values() over a local container holding shared objects
+                    base, how = val, "key"
+                    if isinstance(val, ast.Call) and isinstance(val.func, ast.Attribute) and val.func.attr in ("items", "keys", "values") and not val.args:
+                        base, how = val.func.value, {"items": "item", "keys": "key", "values": "val"}[val.func.attr]
+                    if isinstance(base, ast.Name) and base.id in content:
+                        c_ = content[base.id]
+                        if how == "item":
+                            return c_.get("key") if kind == "iter0" else c_.get("val") if kind == "iter1" else (c_.get("key") or c_.get("val"))
+                        if kind == "iter":
+                            return c_.get(how)
+                        return c_.get(how)
+                return r0
             return tainted.get(e.id)
+        if isinstance(e, (ast.Tuple, ast.List)):
+            for x in e.elts:
+                r = src(x, at, _d + 1) if _d < 6 else None
+                if r:
+                    return r
+            return None
         if isinstance(e, ast.Subscript):
+            if isinstance(e.value, ast.Name) and e.value.id in content and content[e.value.id].get("val") and not src(e.value, at, _d):
+                return content[e.value.id]["val"]
             return src(e.value, at, _d)
         if isinstance(e, ast.Attribute):
             return src(e.value, at, _d)
@@ -531,6 +557,16 @@ def _shared_mutation(model, fi, tainted: Dict[str, str], depth: int, seen: set):
             f = e.func
             if isinstance(f, ast.Attribute) and f.attr in ("items", "values", "get", "get_elements", "get_connections") and not (isinstance(f.value, ast.Name) and f.value.id in _COPIES):
                 return src(f.value, at, _d)
+            # a repository function whose declared result holds circuit objects (e.g. Dict[Element, …], List[Element]):
+            # the container is fresh but the objects in it are those reachable from its arguments
+            callee = model.resolve_call(fi, e)
+            if callee in model.funcs and model.funcs[callee].node.returns is not None and _d < 6:
+                import re as _re
+                if _re.search(r"\b(Element|Circuit|Connection|Container|Series|Parallel)\b", norm(model.funcs[callee].node.returns)):
+                    for a in list(e.args) + [k.value for k in e.keywords]:
+                        r = src(a, at, _d + 1)
+                        if r:
+                            return r
             return None
         if isinstance(e, ast.IfExp):
             return src(e.body, at, _d) or src(e.orelse, at, _d)
@@ -540,6 +576,23 @@ def _shared_mutation(model, fi, tainted: Dict[str, str], depth: int, seen: set):
                 if r:
                     return r
         return None
+
+    for _round in range(3):
+        for n in walk_ordered(fi.node):
+            if isinstance(n, ast.Assign) and isinstance(n.targets[0], ast.Subscript) and isinstance(n.targets[0].value, ast.Name) and n.targets[0].value.id not in tainted:
+                c_name = n.targets[0].value.id
+                if src(n.targets[0].value) is None:
+                    k_ = src(n.targets[0].slice)
+                    v_ = src(n.value)
+                    if k_:
+                        content.setdefault(c_name, {}).setdefault("key", k_)
+                    if v_:
+                        content.setdefault(c_name, {}).setdefault("val", v_)
+            elif isinstance(n, ast.Call) and isinstance(n.func, ast.Attribute) and n.func.attr in ("append", "add") and isinstance(n.func.value, ast.Name) and n.args \
+                    and n.func.value.id not in tainted and src(n.func.value) is None:
+                v_ = src(n.args[0])
+                if v_:
+                    content.setdefault(n.func.value.id, {}).setdefault("val", v_)
 
     for n in walk_ordered(fi.node):
         if isinstance(n, ast.Call) and isinstance(n.func, ast.Attribute) and n.func.attr in (_CONTAINER_MUT | _OBJECT_MUT):
